@@ -49,3 +49,132 @@ n_digits = Contract("C18._n_decimal_digits", target=_f, setup=_setup, requires=_
                               ("missing +1", 'side="right") + 1', 'side="right")')])
 
 CONTRACTS = [n_digits]
+
+
+# --- str_to_int, fixed-width branch (a 2-D EncodedArray of digit characters: the digit matrix of an unsigned integer column of a file) ----------
+# For a matrix of n rows and w digit characters (w = 1, 2, 7, 19): value(i) = sum_j (byte(i,j) - '0') * 10**(w-1-j), an exact integer dot product.
+from pyvc.core import SArr2, SRec, Opaque       # noqa: E402
+
+
+def _s2i():
+    from bionumpy.io import strops
+    return strops.str_to_int
+
+
+_hw = {}
+
+
+def _mk_fixed(w):
+    def setup(ctx):
+        st = St()
+        st.n = z3.Int("n")
+        st.D = z3.Function("digit_char", z3.IntSort(), z3.IntSort(), z3.IntSort())
+        st.text = SArr2.fresh(st.n, w, lambda i, j: st.D(I(i), I(j)), enc="BaseEncoding")
+        st.args = [st.text]
+        _hw["st"] = st
+        return st
+
+    def as_enc(ip, args, kwargs, lineno):
+        """as_encoded_array: identity for already encoded text; with target_encoding=DigitEncoding the code of a digit character is byte - 48
+        (AlphabetEncoding('0123456789'), contract proved in C06; non-digits raise there)"""
+        x = args[0]
+        tgt = kwargs.get("target_encoding", args[1] if len(args) > 1 else None)
+        if tgt is None:
+            return x
+        f = x.snapshot2()
+        return SArr2.fresh(x.rows, x.cols, lambda i, j: I(f(i, j)) - 48, enc="DigitEncoding")
+
+    def ens(ctx, st, ret):
+        def val(i):
+            r = z3.IntVal(0)
+            for j in range(w):
+                r = r + (st.D(i, z3.IntVal(j)) - 48) * (10 ** (w - 1 - j))
+            return r
+        return [("rows", I(ret.length) == st.n), ("value.is.the.decimal.number", Forall(lambda i: Implies(in_range(i, st.n), I(ret.at(i)) == val(i))))]
+    return Contract("C18.str_to_int[fixed width %d]" % w, target=_s2i, setup=setup, requires=lambda ctx, st: [st.n >= 0], ensures=ens,
+                    callees={"bionumpy.encoded_array.as_encoded_array": as_enc},
+                    canaries=[("powers not reversed (least significant digit first)", "powers = 10**np.arange(number_text.shape[-1])[::-1]", "powers = 10**np.arange(number_text.shape[-1])")] if w > 1 else
+                             [("wrong base", "powers = 10**np.arange(number_text.shape[-1])[::-1]", "powers = 9**np.arange(number_text.shape[-1])[::-1] + 1")])
+
+
+CONTRACTS += [_mk_fixed(w) for w in (1, 2, 7, 19)]
+
+
+# --- _build_power_array(shape) without decimal points: the power table of a ragged batch of digit strings ------------------------------------------
+# For ANY batch of n >= 1 rows with lengths >= 1: entry k of row i is lens(i) - 1 - k (the exponent of ten of the k-th character), whatever the
+# other rows are - the table is computed by ONE cumulative sum over the whole batch, re-based at every row start.
+from pyvc.pybuiltins import RShape, ragged_ravel, SRaggedObj     # noqa: E402
+from pyvc import npmodel as M                                      # noqa: E402
+
+
+def _bpa():
+    from bionumpy.io import strops
+    return strops._build_power_array
+
+
+class _Shape(RShape):
+    def getattr(self, ip, name, lineno):
+        if name == "ends":
+            C = self.C
+            return SArr.fresh(self.n, lambda i: C(I(i) + 1))
+        return RShape.getattr(self, ip, name, lineno)
+
+
+def _setup_bpa(ctx):
+    st = St()
+    st.n = z3.Int("n_rows")
+    st.L = z3.Function("row_length", z3.IntSort(), z3.IntSort())
+    st.fl = lambda i: st.L(I(i))
+    st.C = M.exclusive_prefix(st.fl, st.n)
+    st.shape = _Shape(st.n, lambda i: st.C(I(i)), st.fl, C=st.C, contiguous=True)
+    st.args = [st.shape]
+    return st
+
+
+def _req_bpa(ctx, st):
+    ctx.assume(st.n >= 1, Forall(lambda i: Implies(in_range(i, st.n), st.L(i) >= 1), triggers=[st.L], name="every row has at least one character"))
+    M.prefix_monotone(st.C, st.fl, st.n)
+    from pyvc.core import PairForall
+    # strictly increasing row starts (engine lemma L4: summands >= 1)
+    ctx.assume(PairForall(st.C, lambda a, b: Implies(And(a >= 0, a < b, b <= st.n), st.C(a) + (b - a) <= st.C(b)), name="L4 row starts strictly increasing"))
+    return []
+
+
+def _ghost_bpa(ip, env, st):
+    """lemma by induction over q = p + 1 (p a flat position): the running sum up to and including p is C(row(p)+1) - 1 - p"""
+    c = ip.ctx
+    ia = env.vars["index_array"]
+    fa = ia.snapshot()
+    X = M.exclusive_prefix(fa, ia.length, ia)
+    dummy = SRaggedObj(lambda p: 0, st.n, lambda i: st.C(I(i)), st.fl, None, st.C(st.n), contiguous=False, C=st.C)
+    flat = ragged_ravel(ip, dummy, None)
+    row = flat.ravel_ragged[0]
+    st.row, st.X = row, X
+    total = st.C(st.n)
+    c.induct("C18._build_power_array:lemma.running.sum.is.the.remaining.length.of.the.row",
+             lambda q: Implies(And(I(q) >= 1, I(q) <= total), X(I(q)) == st.C(row(I(q) - 1) + 1) - I(q)), X, lo=1, hi=total)
+
+
+def _ens_bpa(ctx, st, ret):
+    return [("rows", I(ret.n) == st.n),
+            ("row.lengths", Forall(lambda i: Implies(in_range(i, st.n), I(ret.lens(i)) == st.L(i)))),
+            ("entry.k.of.row.i.is.the.exponent.of.its.digit", Forall(lambda i, k: Implies(And(in_range(i, st.n), in_range(k, st.L(i))), I(ret.at(i, k)) == st.L(i) - 1 - k), nvars=2))]
+
+
+def _hints_bpa(ctx, st, ks):
+    out = []
+    if hasattr(st, "row"):
+        for k in ks[:2]:
+            out += [st.row(k), st.row(k + 1), st.C(st.row(k)), st.C(st.row(k) + 1), st.C(st.row(k + 1)), st.C(st.row(k + 1) + 1), st.X(k + 1), st.X(k + 2), st.row(k) - 1, st.row(k + 1) - 1]
+        if len(ks) >= 2:
+            i, k = ks[0], ks[1]
+            p = st.C(i) + k
+            out += [p, st.row(p), st.X(p + 1), st.C(i + 1)]
+    return out
+
+
+build_power_array = Contract("C18._build_power_array[no decimal point]", target=_bpa, setup=_setup_bpa, requires=_req_bpa, ensures=_ens_bpa, hints=_hints_bpa,
+                             ghost=[("np.cumsum(index_array, out=index_array)", _ghost_bpa)], timeout_ms=60000,
+                             canaries=[("row starts not re-based", "index_array[np.cumsum(lengths)[:-1]] += lengths[1:]-offset_rest", "index_array[np.cumsum(lengths)[:-1]] += lengths[:-1]-offset_rest"),
+                                       ("first row one short", "index_array[0] += lengths[0]-offset_0", "index_array[0] += lengths[0]-offset_0-1")])
+CONTRACTS.append(build_power_array)
